@@ -34,6 +34,21 @@ Theorem C18_unravel_key_list_dual : forall ks, py_unravel_key_list ks = cpp_unra
 Proof. exact unravel_key_list_dual. Qed.
 Print Assumptions C18_unravel_key_list_dual.
 
+(* unravel_keys( *keys): the full dual statement is FALSE of the code (finding D1804): natively it is the one-argument alias
+   of unravel_key, under compile it returns a tuple of unravelled keys *)
+From TD Require Import Proofs.C18_KeysExtraP.
+Definition C18_unravel_keys_dual_full_statement : Prop := forall ks, py_unravel_keys ks = cpp_unravel_keys ks.
+Theorem C18_unravel_keys_dual_refuted :
+  (exists ks, py_unravel_keys ks <> cpp_unravel_keys ks)
+  /\ (forall ks, cpp_unravel_keys ks <> KRaise -> py_unravel_keys ks <> cpp_unravel_keys ks).
+Proof. split; [exact unravel_keys_dual_refuted|exact unravel_keys_never_agree]. Qed.
+Print Assumptions C18_unravel_keys_dual_refuted.
+
+Theorem C18_unravel_keys_dual_partial : forall k,
+  py_unravel_keys [k] = match cpp_unravel_keys [k] with KOne r => KMany [r] | other => other end.
+Proof. exact unravel_keys_partial. Qed.
+Print Assumptions C18_unravel_keys_dual_partial.
+
 (* and the native function is the in-order fringe on well-formed keys, () otherwise *)
 Theorem C18_unravel_spec : forall k,
   (wfb k = true -> cpp_unravel_to_tuple k = strings k /\ strings k <> [])
@@ -58,12 +73,164 @@ Example C18_ex_slice : slice_indices_opt None (Some 0) (Some 1) 1 = Some (0, 0, 
 Example C18_ex_key : wfb (KT [KS "a"; KT [KS "b"; KT [KS "c"]]]) = true
   /\ cpp_unravel_to_tuple (KT [KS "a"; KT [KS "b"; KT [KS "c"]]]) = ["a"; "b"; "c"]%string. Proof. split; reflexivity. Qed.
 
-(* every site of the library that branches on is_compiling() (list re-translated from /repo on every run) is classified, and
-   every helper classified as a modelled dual path still has its compile branch: a new compile-only code path cannot appear,
-   and a modelled one cannot disappear, without this theorem failing *)
-From TD Require Import Model.C18_Sites Gen.C18_sites.
+(* ---------------------------------------------------------------------------------------------------------------
+   the use site of the slice helper: _getitem_batch_size's compile arm len(range( *_slice_indices(idx, n))) equals the
+   eager arm len(range( *idx.indices(n))) for every slice and length (step 0: both raise) *)
+From TD Require Import Model.C18_Gbs Proofs.C18_GbsP.
+Theorem C18_gbs_slice_dual : forall start stop step len,
+  0 <= len -> gbs_slice_dim true start stop step len = gbs_slice_dim false start stop step len.
+Proof. exact gbs_slice_dual. Qed.
+Print Assumptions C18_gbs_slice_dual.
+
+(* len(range(a, b, c)) counts exactly the positions the range enumerates (so the dimension is never negative) *)
+Theorem C18_range_len_counts : forall a b c k,
+  c <> 0 -> (in_range (a, b, c) k <-> 0 <= k < range_len (a, b, c)).
+Proof. exact range_len_counts. Qed.
+Print Assumptions C18_range_len_counts.
+
+Theorem C18_gbs_slice_dim_nonneg : forall compile start stop step len n,
+  gbs_slice_dim compile start stop step len = Some n -> 0 <= n.
+Proof. exact gbs_slice_dim_nonneg. Qed.
+Print Assumptions C18_gbs_slice_dim_nonneg.
+
+Example C18_ex_gbs : gbs_slice_dim true (Some 3) (Some 1) None 5 = Some 0 /\ gbs_slice_dim false (Some 4) (Some (-3)) (Some 2) 5 = Some 0
+  /\ gbs_slice_dim true None None (Some (-2)) 5 = Some 3 /\ in_range (4, -1, -2) 2.
+Proof. repeat split; vm_compute; congruence. Qed.
+
+(* ---------------------------------------------------------------------------------------------------------------
+   dimension names on the two paths (Model/C18_Names.v).  The full statements are FALSE of the code (finding D1801):
+   under compile TensorDict.__init__ does not assign the names, and _new_unsafe falls back to __init__. *)
+From TD Require Import Model.C18_Names Proofs.C18_NamesP.
+Definition C18_init_names_dual_full_statement : Prop :=
+  forall bd names, init_names true bd names = init_names false bd names.
+Definition C18_names_set_dual_full_statement : Prop :=
+  forall bd cur value, names_set true bd cur value = names_set false bd cur value.
+
+Theorem C18_init_names_dual_refuted : exists bd names,
+  observe_names bd (init_names true bd names) <> observe_names bd (init_names false bd names).
+Proof. exact init_names_dual_refuted. Qed.
+Print Assumptions C18_init_names_dual_refuted.
+
+Theorem C18_init_names_dual_partial : forall bd names,
+  (names = None \/ exists v, names = Some v /\ count_none v = bd) ->
+  init_names true bd names = init_names false bd names.
+Proof. exact init_names_dual_partial. Qed.
+Print Assumptions C18_init_names_dual_partial.
+
+Theorem C18_new_unsafe_names_dual_refuted : exists bd names,
+  observe_names bd (new_unsafe_names true true bd names) <> observe_names bd (new_unsafe_names false true bd names).
+Proof. exact new_unsafe_names_dual_refuted. Qed.
+Print Assumptions C18_new_unsafe_names_dual_refuted.
+
+Theorem C18_new_unsafe_names_dual_partial : forall bd names,
+  new_unsafe_names true false bd names = new_unsafe_names false false bd names
+  /\ new_unsafe_names true true bd None = new_unsafe_names false true bd None.
+Proof. intros bd names. split; [apply new_unsafe_names_dual_subclass|apply new_unsafe_names_dual_partial]. Qed.
+Print Assumptions C18_new_unsafe_names_dual_partial.
+
+Theorem C18_names_set_dual_refuted : exists bd cur value,
+  observe_names bd (names_set true bd cur value) <> observe_names bd (names_set false bd cur value).
+Proof. exact names_set_dual_refuted. Qed.
+Print Assumptions C18_names_set_dual_refuted.
+
+(* the setter agrees on a tensordict that is not named yet (any value, valid or not), and for any value that names a dimension *)
+Theorem C18_names_set_dual_partial : forall bd cur value,
+  (cur = None \/ exists v, value = Some v /\ count_none v <> bd) ->
+  names_set true bd cur value = names_set false bd cur value.
+Proof.
+  intros bd cur value [->|[v [-> H]]]; [apply names_set_dual_unnamed|now apply names_set_dual_naming].
+Qed.
+Print Assumptions C18_names_set_dual_partial.
+
+Example C18_ex_names : names_set true 2%nat None (Some [Some "u"; None]) = NOk (Some [Some "u"; None])
+  /\ names_set false 2%nat None (Some [Some "u"; Some "u"]) = NValueError /\ count_none [Some "u"; None] <> 2%nat.
+Proof. repeat split; vm_compute; congruence. Qed.
+
+(* ---------------------------------------------------------------------------------------------------------------
+   memo tables / @cache: eager consults and fills, compile bypasses.  For ANY interleaving of eager and compiled calls on
+   one table, from any coherent table, the values returned are those of the uncached computation -- hence equal *)
+From TD Require Import Model.C18_Memo Proofs.C18_MemoP.
+Theorem C18_memo_dual : forall (K V : Type) (keqb : K -> K -> bool) (f : K -> option V) (storable : V -> bool),
+  (forall a b, keqb a b = true <-> a = b) ->
+  forall rg qs1 qs2 m1 m2,
+    coherent keqb f m1 -> coherent keqb f m2 -> map snd qs1 = map snd qs2 ->
+    fst (run keqb f storable rg qs1 m1) = fst (run keqb f storable rg qs2 m2).
+Proof. exact @memo_dual. Qed.
+Print Assumptions C18_memo_dual.
+
+Theorem C18_memo_run_sound : forall (K V : Type) (keqb : K -> K -> bool) (f : K -> option V) (storable : V -> bool),
+  (forall a b, keqb a b = true <-> a = b) ->
+  forall rg qs m, coherent keqb f m ->
+    fst (run keqb f storable rg qs m) = map (fun q => f (snd q)) qs /\ coherent keqb f (snd (run keqb f storable rg qs m)).
+Proof. exact @run_sound. Qed.
+Print Assumptions C18_memo_run_sound.
+
+(* the coherence hypothesis is necessary *)
+Theorem C18_memo_dual_needs_coherence :
+  exists (f : nat -> option bool) m,
+    fst (query Nat.eqb f (fun _ => true) true true m 0%nat) <> fst (query Nat.eqb f (fun _ => true) true false m 0%nat).
+Proof. exact memo_dual_needs_coherence. Qed.
+Print Assumptions C18_memo_dual_needs_coherence.
+
+Example C18_ex_memo : coherent Nat.eqb (fun _ : nat => Some true) [] /\
+  fst (run Nat.eqb (fun _ : nat => Some true) (fun _ => true) true [(false, 0%nat); (true, 0%nat); (false, 0%nat)] [])
+  = [Some true; Some true; Some true].
+Proof. split; [apply coherent_nil|reflexivity]. Qed.
+
+(* ---------------------------------------------------------------------------------------------------------------
+   TensorDictSequential.forward / ProbabilisticTensorDictSequential.forward: the key SET selected before returning *)
+From Coq Require Import Permutation.
+From TD Require Import Model.C18_SeqKeys Proofs.C18_SeqKeysP.
+Theorem C18_seq_keys_dual : forall (K : Type) (keqb : K -> K -> bool),
+  (forall a b, keqb a b = true <-> a = b) ->
+  forall out_keys td_keys,
+    Permutation (keys_compile keqb out_keys td_keys) (keys_eager keqb out_keys td_keys)
+    /\ NoDup (keys_eager keqb out_keys td_keys).
+Proof. intros K keqb H o t. split; [now apply seq_keys_dual|apply to_set_NoDup; exact H]. Qed.
+Print Assumptions C18_seq_keys_dual.
+
+(* ---------------------------------------------------------------------------------------------------------------
+   every site of the library that branches on is_compiling() (list AND branch shapes re-translated from /repo on every run)
+   is classified; every helper classified as a modelled dual path still has its compile branch; the shape table covers
+   every site; and a flag handed on as a keyword reaches an analysed function: a new compile-only code path cannot
+   appear, and a modelled one cannot disappear, without this theorem failing *)
+From TD Require Import Model.C18_SiteShape Model.C18_Sites Gen.C18_sites Proofs.C18_SiteShapeP.
 Theorem C18_sites_classified :
   forallb is_classified compile_sites = true
-  /\ forallb (fun d => existsb (site_eqb d) compile_sites) dual_sites = true.
-Proof. split; vm_compute; reflexivity. Qed.
+  /\ forallb (fun d => existsb (site_eqb d) compile_sites) dual_sites = true
+  /\ forallb (fun s => is_classified (site_key s)) site_shapes = true
+  /\ forallb (fun c => existsb (fun s => site_eqb c (site_key s)) site_shapes) compile_sites = true
+  /\ forallb (fun s => forallb (forward_resolved site_shapes) (s_forwards s)) site_shapes = true.
+Proof. repeat split; vm_compute; reflexivity. Qed.
 Print Assumptions C18_sites_classified.
+
+(* the Guard classification is CHECKED: for every site classified Guard the two specialisations of the function body
+   (flag := True / flag := False) are the same token stream once the allow-listed bookkeeping statements are dropped,
+   and the translator understood every use of the flag.  A site whose arms differ in a value-carrying statement cannot be
+   classified Guard. *)
+Theorem C18_guards_checked :
+  forallb (fun s => implb (is_guard (site_key s)) (guard_shape_ok s)) site_shapes = true
+  /\ forallb (fun g => existsb (fun s => site_eqb g (site_key s)) site_shapes) guard_sites = true.
+Proof. split; vm_compute; reflexivity. Qed.
+Print Assumptions C18_guards_checked.
+
+(* ... and it is honest in the other direction too: no site that passes the check is left in a weaker class by mistake
+   except the ones modelled anyway *)
+Theorem C18_unmodelled_are_not_guards :
+  forallb (fun s => implb (existsb (site_eqb (site_key s)) unmodelled_sites) (negb (guard_shape_ok s))) site_shapes = true.
+Proof. vm_compute; reflexivity. Qed.
+Print Assumptions C18_unmodelled_are_not_guards.
+
+(* meaning of the boolean *)
+Theorem C18_guard_shape_sound : forall s,
+  guard_shape_ok s = true -> norm true (s_compile s) = norm false (s_eager s) /\ s_opaque s = [].
+Proof. exact guard_shape_sound. Qed.
+Print Assumptions C18_guard_shape_sound.
+
+Example C18_ex_guard : exists s, In s site_shapes /\ is_guard (site_key s) = true /\ guard_shape_ok s = true
+  /\ s_compile s <> s_eager s.
+Proof.
+  destruct (find (fun s => String.eqb (s_func s) "TensorDictBase.lock_") site_shapes) as [s|] eqn:E; [|vm_compute in E; discriminate].
+  exists s. pose proof (find_some _ _ E) as [Hin _]. vm_compute in E. injection E as <-.
+  split; [exact Hin|]. repeat split; try (vm_compute; reflexivity). vm_compute. discriminate.
+Qed.
